@@ -257,7 +257,7 @@ def run(ctx):
     ctx.regen("all")
     okp, log = ctx.prove("props/C18.v", "C18")
     total, pbad = pathfuzz(ctx, 400 if ctx.tier == "quick" else 8000)
-    ctx.obligation("correspondence: real RelToCwd / PortionAfterSep (one process per working directory) == model on %d (cwd, name) pairs; relative names identify files" % total, total > 0 and not pbad)
+    ctx.obligation("correspondence: real RelToCwd / PortionAfterSep / AbsFromCwd-of-RelToCwd (one process per working directory) == model on %d (cwd, name) pairs; relative names identify files" % total, total > 0 and not pbad)
     runs, rbad = relocation(ctx)
     ctx.obligation("whole tool: the real binary on the same 6-package module at 3 absolute locations (one with a comma, a space and a percent sign in its path) x 5 start directories, explicit and default file filter (root, sub-packages, parent via go.work): identical diagnostics up to the module prefix, cross-package and nolint flows included (%d runs)" % runs, runs > 0 and not rbad)
     ctx.coverage.update({"evaluations": total + runs, "distinct_nontrivial": total,
